@@ -6,6 +6,7 @@ A K2 program is a macro invocation whose operands are instrumented helper calls 
 input for the real parser (harness → STRUCT) and (c) the WORLD description for the Lean driver.
 """
 import hashlib
+import json
 import os
 import re
 import shutil
@@ -652,7 +653,33 @@ def check_aliases(ctx):
 
 
 def replay(obj):
-    return 0
+    """Re-runs the program of a replay file against the current /repo: compiles the stored macro invocation with the
+    scaffold prelude, runs it (a second time from thread `w2` when the violation was about a second execution) and prints
+    what it does now next to what was observed and what the reference semantics says.  Exit code 1 if the result or the
+    event log still differs from the stored reference line."""
+    kind = obj.get("macro_kind", "")
+    prog = obj.get("program")
+    if not prog or not kind.startswith("a0"):
+        print(json.dumps({"note": "replay by recompilation is implemented for the sequential and thread-spawning kinds; "
+                                  "for this file re-run the check itself (same VERIF_SEED) to regenerate the program"}))
+        return 0
+    second = "second execution" in " ".join(obj.get("problems", []))
+    unnamed = "without a name" in obj.get("caller_thread", "")
+    pid = "p0" + ("_2" if second else "_u" if unnamed else "")
+    fn = ("fn %s() -> String {\n    let r = std::panic::catch_unwind(|| { let __res = %s; __res.show() });\n"
+          "    match r { Ok(s) => format!(\"ok {}\", s), Err(e) => format!(\"panic {}\", panic_text(e)) }\n}\n" % (pid, prog))
+    src = PRELUDE_SYNC + fn + MAIN_SYNC % ('("%s", %s as fn() -> String)' % (pid, pid))
+    ok, out, log = build_and_run("k2replay", src)
+    if not ok:
+        print(json.dumps({"compiles_now": False, "compiler": log[-1500:]}, indent=1))
+        return 1
+    lines = dict(l.split("\t", 1) for l in out.splitlines() if "\t" in l)
+    now = lines.get(pid + "#2" if second else pid, "MISSING")
+    print(json.dumps({"compiles_now": True, "observed_now": now[:1500], "observed_then": obj.get("observed", "")[:1500],
+                      "reference_semantics": obj.get("reference_semantics", "")[:1500]}, indent=1))
+    ref = obj.get("reference_semantics", "").split("\t")[0]
+    res_now = normalize_panic(now.split("\t")[0], 0) if now.startswith("panic") else now.split("\t")[0]
+    return 1 if ref and lean_flat(ref + "\t", Prog("x", kind, "join"))[0] != res_now else 0
 
 
 # ------------------------------------------------------------------------------------------------
